@@ -156,7 +156,14 @@ func cmdCheck(args []string) int {
 		for _, ob := range s.Obligs {
 			if !want(ob) {
 				if ob.Cover && ob.Result == "unsat" {
-					engineErr = "vacuous contract: " + ob.Name + " (" + ob.Detail + ")"
+					if strings.Contains(ob.Name, "cover:requires") {
+						engineErr = "vacuous contract: " + ob.Name + " (" + ob.Detail + ")"
+					} else {
+						// the invariant is unsatisfiable at the loop head: everything proved about the loop body is vacuous
+						violations++
+						fmt.Printf("VIOLATION property=%s replay=%s no-failing-input-found\n", id, writeReplayText(id, sanitize(ob.Name), "obligation "+ob.Name+": the loop invariant is unsatisfiable at the loop head, so the obligations of the loop body hold vacuously; the contract no longer describes the code"))
+						fmt.Printf("  obligation %s (unsat cover) at %s:%d\n", ob.Name, shortFile(ob.Pos.Filename), ob.Pos.Line)
+					}
 				}
 				continue
 			}
